@@ -12,6 +12,7 @@ import (
 	"os"
 	"os/exec"
 	"path/filepath"
+	"runtime"
 	"sort"
 	"strconv"
 	"strings"
@@ -414,7 +415,7 @@ func superviseMain(args map[string]string) {
 							default:
 							}
 						}
-						timer.Reset(caseTimeout)
+						timer.Reset(loadScaled(caseTimeout))
 						parts := strings.SplitN(ln, "\t", 4)
 						switch parts[0] {
 						case "B":
@@ -566,6 +567,29 @@ func superviseMain(args map[string]string) {
 	if len(res.Violations) > 0 {
 		os.Exit(1)
 	}
+}
+
+// loadScaled stretches a wall-clock limit when the machine is oversubscribed (1-minute load average above the number of
+// CPUs): a check that shares the machine with many others must not mistake slowness for a hang. Capped at 12x.
+func loadScaled(d time.Duration) time.Duration {
+	b, err := os.ReadFile("/proc/loadavg")
+	if err != nil {
+		return d
+	}
+	f := strings.Fields(string(b))
+	if len(f) == 0 {
+		return d
+	}
+	load, err := strconv.ParseFloat(f[0], 64)
+	n := float64(runtime.NumCPU())
+	if err != nil || n <= 0 || load <= n {
+		return d
+	}
+	k := load / n
+	if k > 12 {
+		k = 12
+	}
+	return time.Duration(float64(d) * k)
 }
 
 func firstLine(s string) string {
